@@ -15,7 +15,7 @@ from harness import checklib  # noqa: E402
 def run(c):
     observer_design.run_design(c, "C04")
     b = 2 if c.thorough else 1
-    fams = [("delivery", oe.fam_delivery(), b), ("removal", oe.fam_removal()[:6], b)]
+    fams = [("delivery", oe.fam_delivery(), b), ("removal", oe.fam_removal()[:6] + oe.fam_reentrant_unschedule(), b)]
     oe.run_families(c, "C04", fams, bound=b, random_n=3000 if c.thorough else 300)
     c.cov["rule"] = ("executions of the real BaseObserver: bounded-preemption DFS (b=%d) on the delivery/removal program "
                      "families + random programs under random schedules; distinct = distinct black-box traces" % b)
